@@ -1,6 +1,6 @@
 CONSTANTS
-  Idents = {"UserId", "A", "Foo", "FooBar", "HTTPServer", "URL"}
-  Renames = {"none", "x", "foo-bar"}
+  Idents = {"UserId", "A", "Foo", "FooBar", "HTTPServer", "URL", "Init", "Default", "None"}
+  Renames = {"none", "x", "foo-bar", "init"}
   Kinds = {"unit", "newtype", "struct"}
   RuleSet = {"none", "lowercase", "UPPERCASE", "PascalCase", "camelCase", "snake_case", "SCREAMING_SNAKE_CASE", "kebab-case", "SCREAMING-KEBAB-CASE"}
   TagPairs = {"type_content", "kind_data"}
